@@ -437,3 +437,39 @@ pub proof fn lemma_rt_content<P: Prefix, T, F: FnMut(&P, &T) -> bool>(t0: Seq<No
         }
     }
 }
+
+
+/// [C15] `_remove_node` keeps the shape canonical
+pub proof fn lemma_rm_canon<P: Prefix, T>(t0: Seq<Node<P, T>>, live0: ISet<int>, t1: Seq<Node<P, T>>, live1: ISet<int>,
+        idx: int, par: Option<usize>, par_right: bool, grp: Option<usize>, grp_right: bool, flag: bool)
+    requires
+        twf_live(t0, live0), rm_pre(t0, live0, idx, par, par_right, grp, grp_right),
+        rm_outcome(t0, live0, t1, live1, idx, par, par_right, grp, grp_right, flag),
+        tcanon(t0, live0),
+        live1.contains(idx) ==> t1[idx].left == t0[idx].left && t1[idx].right == t0[idx].right && (idx == 0 || (t0[idx].left.is_some() && t0[idx].right.is_some())),
+        par.is_some() && live1.contains(par.unwrap() as int) && chd(t1, par.unwrap() as int, par_right).is_none() ==> grp.is_none() || t0[par.unwrap() as int].value.is_some(),
+    ensures tcanon(t1, live1)
+{
+    lemma_rm_pre(t0, live0, idx, par, par_right, grp, grp_right);
+    let pi = if par.is_some() { par.unwrap() as int } else { idx };
+    let gi = if grp.is_some() { grp.unwrap() as int } else { idx };
+    assert forall|n: int| #![trigger live1.contains(n)] live1.contains(n) && n != 0 && t1[n].value.is_none() implies t1[n].left.is_some() && t1[n].right.is_some() by {
+        assert(live0.contains(n));
+        lemma_pre_refl(kb(t0, n));
+        lemma_step(t0, live0, n, kb(t0, n));
+        if n == idx {
+        } else if par.is_some() && n == pi {
+            assert(t0[pi].value.is_none());
+            assert(t0[pi].left.is_some() && t0[pi].right.is_some());
+        } else if grp.is_some() && n == gi {
+            assert(t0[gi].left.is_some() && t0[gi].right.is_some());
+            if !flag && !live1.contains(pi) {
+                // the parent had no value and no other child: impossible in a canonical trie
+                assert(live0.contains(pi) && pi != 0 && t0[pi].value.is_none());
+                assert(t0[pi].left.is_some() && t0[pi].right.is_some());
+            }
+        } else {
+            assert(t1[n] == t0[n]);
+        }
+    }
+}
